@@ -12,6 +12,7 @@ import (
 	"github.com/baidu/go-lib/lru_cache"
 
 	"github.com/bfenetworks/bfe/bfe_basic"
+	"github.com/bfenetworks/bfe/bfe_basic/action"
 	"github.com/bfenetworks/bfe/bfe_http"
 )
 
@@ -22,18 +23,35 @@ type VerifPrison struct {
 	r *prisonRule
 }
 
-func VerifNewPrison(checkPeriodNs, stayPeriodNs int64, threshold int32, accessDictSize, prisonDictSize int) *VerifPrison {
-	r := new(prisonRule)
-	r.name = "verif"
-	r.condStr = "default_t()"
-	r.accessSigner = AccessSigner{AccessSignConf: AccessSignConf{UseClientIP: true}}
-	r.checkPeriodNs = checkPeriodNs
-	r.stayPeriodNs = stayPeriodNs
-	r.threshold = threshold
-	r.accessDictSize = accessDictSize
-	r.prisonDictSize = prisonDictSize
+func verifConf(checkPeriodS, stayPeriodS int64, threshold int32, accessDictSize, prisonDictSize int) PrisonRuleConf {
+	cond := "default_t()"
+	name := "verif"
+	return PrisonRuleConf{Cond: &cond, Action: &action.Action{Cmd: "CLOSE"},
+		AccessSignConf: &AccessSignConf{UseClientIP: true}, Name: &name,
+		CheckPeriod: &checkPeriodS, StayPeriod: &stayPeriodS, Threshold: &threshold,
+		AccessDictSize: &accessDictSize, PrisonDictSize: &prisonDictSize}
+}
+
+// VerifNewPrison builds the rule the way a configuration load does: newPrisonRule(conf) + initDict(nil).
+// Periods are in seconds.
+func VerifNewPrison(checkPeriodS, stayPeriodS int64, threshold int32, accessDictSize, prisonDictSize int) *VerifPrison {
+	r, err := newPrisonRule(verifConf(checkPeriodS, stayPeriodS, threshold, accessDictSize, prisonDictSize))
+	if err != nil {
+		panic(err)
+	}
 	r.initDict(nil)
 	return &VerifPrison{r: r}
+}
+
+// Reload builds a new rule of the same name from a new configuration and lets it take over the dictionaries of the
+// current rule (initDict(oldRule)), as a configuration reload does.
+func (v *VerifPrison) Reload(checkPeriodS, stayPeriodS int64, threshold int32, accessDictSize, prisonDictSize int) {
+	r, err := newPrisonRule(verifConf(checkPeriodS, stayPeriodS, threshold, accessDictSize, prisonDictSize))
+	if err != nil {
+		panic(err)
+	}
+	r.initDict(v.r)
+	v.r = r
 }
 
 // lruKeysOldestFirst reads the recency order of an LRUCache (unexported list) without changing it.
@@ -68,19 +86,6 @@ func (v *VerifPrison) Advance(dt int64) {
 
 // Lens returns the number of entries of the access and prison dictionaries.
 func (v *VerifPrison) Lens() (int, int) { return v.r.accessDict.Len(), v.r.prisonDict.Len() }
-
-// Reload replaces the rule by a freshly configured one that takes over the old dictionaries (initDict(oldRule)),
-// as a configuration reload does.
-func (v *VerifPrison) Reload(dictSize int) {
-	old := v.r
-	r := new(prisonRule)
-	*r = *old
-	r.accessDict, r.prisonDict = nil, nil
-	r.accessDictSize = dictSize
-	r.prisonDictSize = dictSize
-	r.initDict(old)
-	v.r = r
-}
 
 // Request runs recordAndCheck for the client identified by key (key < 0: request without client address).
 func (v *VerifPrison) Request(key int) bool {
